@@ -366,6 +366,9 @@ class BallIndicator(Member):
         nd = np.linalg.norm(d)
         return x.copy() if nd <= self.r else self.c + self.r * d / nd
 
+    def dist(self, x):
+        return max(0.0, float(np.linalg.norm(x - self.c)) - self.r)
+
     def prox(self, x, gamma):
         return self.project(x)
 
@@ -408,6 +411,9 @@ class BoxIndicator(Member):
 
     def project(self, x):
         return np.clip(x, self.lo, self.hi)
+
+    def dist(self, x):
+        return float(np.linalg.norm(x - np.clip(x, self.lo, self.hi)))
 
     def prox(self, x, gamma):
         return self.project(x)
